@@ -718,7 +718,8 @@ class Builder:
         try:
             yield
         finally:
-            assert self._scope_stack.pop() == name
+            popped = self._scope_stack.pop()
+            assert popped == name
 
     @contextmanager
     def Index(self, index):
@@ -740,7 +741,8 @@ class Builder:
         try:
             yield
         finally:
-            assert self._scope_stack.pop() == index
+            popped = self._scope_stack.pop()
+            assert popped == index
 
     def as_memory_map(self):
         self.freeze()
